@@ -69,6 +69,11 @@ def oracle(case, trace, ix, res, prefix='C12', focus=None):
         begin = ix.enter(sid)
         if begin is None or not sp['members']:
             continue
+        if not ix.finite_members(sid):
+            # only forever members: when such a run stops is not specified (the library
+            # stops at the first completion), so eagerness cannot be judged
+            res.label('outside:no-non-forever-member')
+            continue
         stop = ix.stop_instant(sid)
         stop = float('inf') if stop is None else stop
         elig = eligibility(ix, sid)
